@@ -107,6 +107,40 @@ def pre_read_last_offset(ctx, f, cfg):
     ctx.floor("P-PRE", cfg + ":call sites of read_last_offset_from_buffer", n, 4)
 
 
+def offsets_validated(ctx, f, cfg):
+    """P-OFFSETS (added after seeded change C04b): the GVariant array/dict readers index the buffer with framing offsets
+    taken from FramingOffsets (`bytes[pos..start + offset]`, table lines of next_key_seed / element_end); that is in
+    bounds only because `from_encoded_array` rejects every offset greater than the start of the offset table. So each
+    offset pushed there must be dominated by a comparison of *that value* with `offsets_start` whose failing edge
+    returns Err."""
+    fea = [b for b in f.find(name="from_encoded_array") if "FramingOffsets" in b.id]
+    if not fea:
+        ctx.ob("P-OFFSETS", cfg + ":from_encoded_array", False, "FramingOffsets::from_encoded_array not found", "-")
+        return
+    b = fea[0]
+    pushes = [c for c in mir.calls(b) if c.callee.rsplit("::", 1)[-1] in ("push", "push_back", "push_front") and len(c.args) > 1]
+    ctx.floor("P-OFFSETS", cfg + ":pushes of decoded offsets", len(pushes), 1)
+    for c in pushes:
+        val_desc = panics._nm(b, c.args[1])
+        ok = None
+        for sb, op, l, r, tt, ft, ln in mir.cmp_switches(b):
+            dl, dr = panics._nm(b, l), panics._nm(b, r)
+            # the compared value must be the same expression that is pushed (re-reading the same bytes counts: same description)
+            sides = {dl: dr, dr: dl}
+            if val_desc not in sides:
+                continue
+            other = sides[val_desc]
+            if "offsets_start" not in other and "read_last_offset_from_buffer" not in other:
+                continue
+            for e in (tt, ft):
+                if e is not None and mir.block_dominates(b, e, c.b) and panics._single_pred_edge(b, sb, e):
+                    ok = "%s(%s,%s) line %d" % (op, dl, dr, ln)
+        ctx.ob("P-OFFSETS", cfg + ":from_encoded_array:offset-bounded-by-offsets_start", ok is not None,
+               "each offset is compared with offsets_start before it is kept: " + ok if ok else
+               "an offset read from the buffer is kept without being compared with offsets_start: the readers index "
+               "`bytes[pos..start+offset]` with it (slice index out of range on hostile input)", c.where)
+
+
 REC_EXEMPT = {
     "zvariant::de::Enum": "enum payloads: nesting depth is fixed by the Rust type being decoded, not by input bytes",
     "zvariant::serialized::data::Data": "top-level entry point",
@@ -214,3 +248,4 @@ def run(ctx):
         alloc_rule(ctx, f, cfg, reach)
         if cfg == "K2":
             pre_read_last_offset(ctx, f, cfg)
+            offsets_validated(ctx, f, cfg)
